@@ -49,6 +49,7 @@ type Node struct {
 
 	mu      sync.Mutex
 	running bool
+	gen     int // incremented by every Start: the epilogue of an earlier life must not touch a later one
 	yields  chan Yield
 	resume  chan cmd
 	cancel  context.CancelFunc
@@ -93,7 +94,14 @@ func installHook() {
 		return
 	}
 	hookOn = true
-	vhook.Set(func(scope, point string, n uint64) {
+	vhook.Set(YieldAt)
+}
+
+// YieldAt is the handler behind every yield point; harnesses may also call it from hooks of the
+// product's public hook interface (e.g. Hooks.BeforeRead: inside the dump transaction of an upload) to
+// get a scheduling point where the product has no named one.
+func YieldAt(scope, point string, n uint64) {
+	func() {
 		if point == "clean.ran" {
 			// the background cleaner of some instance finished a run (its scope is the database name)
 			cleanRan.Add(1)
@@ -128,7 +136,7 @@ func installHook() {
 		if c := <-nd.resume; c == cmdCrash {
 			runtime.Goexit()
 		}
-	})
+	}()
 }
 
 // NewNode creates a managed instance (not started).
@@ -154,6 +162,8 @@ func (nd *Node) Start() (Yield, error) {
 	nd.yields = make(chan Yield)
 	nd.resume = make(chan cmd)
 	nd.running = true
+	nd.gen++
+	gen := nd.gen
 	nd.mu.Unlock()
 	yields := nd.yields
 	if nd.Conf.Storage.Cleanup.Enabled && !nd.Opt.ReceiveOnly {
@@ -162,9 +172,11 @@ func (nd *Node) Start() (Yield, error) {
 	go func() {
 		finished := false
 		defer func() {
-			// Goexit (crash) or normal return
+			// Goexit (crash) or normal return (a later life of the same Node may already be running)
 			nd.mu.Lock()
-			nd.running = false
+			if nd.gen == gen {
+				nd.running = false
+			}
 			nd.mu.Unlock()
 			cancel()
 			if !finished {
@@ -174,7 +186,9 @@ func (nd *Node) Start() (Yield, error) {
 		err := s.Sync(ctx)
 		finished = true
 		nd.mu.Lock()
-		nd.running = false
+		if nd.gen == gen {
+			nd.running = false
+		}
 		nd.mu.Unlock()
 		yields <- Yield{Done: true, Point: "returned", Err: err}
 	}()
